@@ -100,4 +100,19 @@ structure Box (K : Type) where
   lo : V3 K
   hi : V3 K
 
+/-! ### host code `bvh.build_mesh_bvh` (numpy, not translated): the half extent handed to the mesh leaf box
+
+      pmin = np.min(points, axis=0) ; pmax = np.max(points, axis=0)
+      half = np.maximum(np.abs(pmin), np.abs(pmax))           # since repo commit 670227b (was 0.5 * (pmax - pmin))
+
+    `_compute_bvh_bounds` then uses `_compute_box_bounds(pos, rot, half)`: a box centred at the geom frame origin. -/
+
+/-- `np.min(points, axis=0)` / `np.max(points, axis=0)` of a non-empty vertex list `v0 :: vs` -/
+def meshMin {K : Type} [Scalar K] (v0 : V3 K) (vs : List (V3 K)) : V3 K := vs.foldl V3.vmin v0
+def meshMax {K : Type} [Scalar K] (v0 : V3 K) (vs : List (V3 K)) : V3 K := vs.foldl V3.vmax v0
+
+/-- `half = np.maximum(np.abs(pmin), np.abs(pmax))` -/
+def meshHalf {K : Type} [Scalar K] (v0 : V3 K) (vs : List (V3 K)) : V3 K :=
+  V3.vmax (V3.vabs (meshMin v0 vs)) (V3.vabs (meshMax v0 vs))
+
 end Mjw.RayCast
